@@ -13,7 +13,7 @@
     - [kconcat k u v] does not extend [u] when [u] already has [k] symbols or ends with [eoi].
 
     [kcat k u v = firstn k (u ++ v)] is the plain truncated concatenation; it coincides with
-    [kconcat] whenever [u] contains no [eoi] ([kconcat_kcat]).  The equations of FIRST and FOLLOW
+    [kconcat] whenever [u] contains no [eoi] ([kconcat_kcat]).  The recursion laws of FIRST and FOLLOW
     hold for [kcat] without any assumption on the grammar; with [kconcat] they need the grammar
     not to use terminal 0 ([First_app_kconcat]). *)
 From Coq Require Import List NArith Bool Lia Arith.
@@ -270,7 +270,7 @@ Definition SLL (k : nat) (g : cfg) (a : N) : Prop :=
     nth_error (prods_of g a) i = Some p -> nth_error (prods_of g a) j = Some q ->
     forall w, LA k g a p w -> LA k g a q w -> False.
 
-(** *** Equations of FIRST_k *)
+(** *** Recursion laws of FIRST_k *)
 
 Lemma First_nil k g u : First k g [] u <-> u = [].
 Proof.
@@ -360,7 +360,7 @@ Proof.
     repeat split; auto; [symmetry|]; apply kconcat_kcat; eapply First_no_eoi; eauto.
 Qed.
 
-(** *** Equations of FOLLOW_k *)
+(** *** Recursion laws of FOLLOW_k *)
 
 Lemma Follow_start k g : Follow k g (start g) (firstn k [eoi]).
 Proof. exists [], [], []. repeat split; constructor. Qed.
